@@ -368,6 +368,102 @@ class Engine:
             raise TypeMismatch('dict %r does not have exactly the keys of %s' % (py, name))
         return self.new_rec(st, name, {k: from_py(v) for k, v in py.items()}, node)
 
+    # -- general dicts (maps): dom: ref -> (key id -> Bool), val: ref -> (key id -> value id)
+    MAP_DOM = ('$map', 'dom', 0)
+    MAP_VAL = ('$map', 'val', 0)
+    EMPTY_MAP = z3.IntVal(0)       # reserved reference: the empty mapping (never allocated, never written)
+
+    def map_dom(self, st, ref_t):
+        a = self.harr(st, self.MAP_DOM, z3.ArraySort(IntS, BoolS))
+        return z3.If(ref_t == 0, z3.K(IntS, FALSE), z3.Select(a, ref_t))
+
+    def map_val(self, st, ref_t):
+        a = self.harr(st, self.MAP_VAL, z3.ArraySort(IntS, IntS))
+        return z3.Select(a, ref_t)
+
+    def key_term(self, v):
+        "key id of a Python value used as a dict key (equal terms give equal ids; literals are pairwise distinct)"
+        if isinstance(v, VKey):
+            return v.t
+        if isinstance(v, VStr):
+            if v.lit is not None:
+                return self.lit_key(v.lit)
+            return self.neg(z3.Function('StrKey', ArrII, IntS, IntS, IntS)(v.arr, v.off, v.ln))
+        if isinstance(v, VCh):
+            return self.neg(z3.Function('ChKey', IntS, IntS)(v.t))
+        if isinstance(v, (VInt, VBool)):
+            return self.neg(z3.Function('IntKey', IntS, IntS)(self.num(v)))
+        if isinstance(v, VAny):
+            return v.t
+        if isinstance(v, VNone):
+            return z3.IntVal(-7)
+        raise Unsupported('dict key of kind ' + v.kind)
+
+    _lit_keys = {}
+
+    @staticmethod
+    def neg(u):
+        "ids of non-reference values are negative (references are 1 .. alloc-1)"
+        return -1000 - z3.If(u >= 0, u, -u)
+
+    def lit_key(self, s):
+        k = self._lit_keys.get(s)
+        if k is None:
+            k = z3.IntVal(-100 - len(self._lit_keys))      # pairwise distinct, negative, disjoint from neg()
+            self._lit_keys[s] = k
+        return k
+
+    def new_map(self, st):
+        r = st.alloc
+        st.alloc = simp(st.alloc + 1)
+        self.map_write(st, r, z3.K(IntS, FALSE), self.map_val(st, r))
+        return VMap(r)
+
+    def map_write(self, st, ref_t, dom, val):
+        self.check_fresh_write(st, ref_t, None, 'dict write')
+        a = self.harr(st, self.MAP_DOM, z3.ArraySort(IntS, BoolS))
+        self.hset(st, self.MAP_DOM, z3.Store(a, ref_t, dom))
+        b = self.harr(st, self.MAP_VAL, z3.ArraySort(IntS, IntS))
+        self.hset(st, self.MAP_VAL, z3.Store(b, ref_t, val))
+
+    def map_has(self, st, m, k):
+        return z3.Select(self.map_dom(st, m.t), self.key_term(k))
+
+    def map_at(self, st, m, k):
+        v = z3.Select(self.map_val(st, m.t), self.key_term(k))
+        # closed heap: an id stored in a map is a non-reference (negative) or an object allocated earlier
+        st.assume(v < st.alloc)
+        return VAny(v)
+
+    def map_store(self, st, m, k, v, node=None):
+        kt = self.key_term(k)
+        vt = self.flatten(st, ('any',), v)[0]
+        self.map_write(st, m.t, z3.Store(self.map_dom(st, m.t), kt, TRUE), z3.Store(self.map_val(st, m.t), kt, vt))
+
+    def map_update(self, st, m, src):
+        "m.update(src): keys of src win"
+        k = fresh_int('lk')
+        ds, vs = self.map_dom(st, src.t), self.map_val(st, src.t)
+        dm, vm = self.map_dom(st, m.t), self.map_val(st, m.t)
+        # fresh arrays defined pointwise, with the obvious triggers (more robust than lambda terms)
+        nd = fresh(z3.ArraySort(IntS, BoolS), 'upd_dom')
+        nv = fresh(z3.ArraySort(IntS, IntS), 'upd_val')
+        st.assume(z3.ForAll([k], z3.Select(nd, k) == z3.Or(z3.Select(dm, k), z3.Select(ds, k)),
+                            patterns=[z3.Select(nd, k)]))
+        st.assume(z3.ForAll([k], z3.Select(nv, k) == z3.If(z3.Select(ds, k), z3.Select(vs, k), z3.Select(vm, k)),
+                            patterns=[z3.Select(nv, k)]))
+        self.map_write(st, m.t, nd, nv)
+
+    def as_map(self, st, v, node=None):
+        if isinstance(v, VMap):
+            return v
+        if isinstance(v, VAny):
+            self.note('configuration data: a value used as a mapping is assumed to be a dict')
+            return VMap(v.t)
+        if isinstance(v, VConst) and v.py == {}:
+            return VMap(self.EMPTY_MAP)
+        return None
+
     # ---------------------------------------------------------------- typing
     def assume_type(self, st, T, v, guard=TRUE):
         "type invariants of a value read from the heap / received from outside"
@@ -394,6 +490,8 @@ class Engine:
         elif k == 'ref' and isinstance(v, VRef):
             st.assume(IMPL(guard, AND(v.t >= 1, v.t < st.alloc, self.class_is(st, v.t, T[1]))))
         elif k == 'rec' and isinstance(v, VRec):
+            st.assume(IMPL(guard, AND(v.t >= 1, v.t < st.alloc)))
+        elif k == 'map' and isinstance(v, VMap):
             st.assume(IMPL(guard, AND(v.t >= 1, v.t < st.alloc)))
         elif k == 'list' and isinstance(v, VList):
             st.assume(IMPL(guard, AND(v.t >= 1, v.t < st.alloc, self.list_len(st, v) >= 0,
@@ -430,6 +528,8 @@ class Engine:
             return VRec(T[1], terms[0])
         if k == 'any':
             return VAny(terms[0])
+        if k == 'map':
+            return VMap(terms[0])
         if k == 'pred':
             return VFn(('pred', terms[0]))
         if k == 'fn':
@@ -475,15 +575,21 @@ class Engine:
             if isinstance(v, VInt):
                 return [z3.ToReal(v.t)]
             return [v.t]
-        if k in ('bool', 'char', 'echar', 'ref', 'list', 'rec'):
+        if k in ('bool', 'char', 'echar', 'ref', 'list', 'rec', 'map'):
             return [v.t]
         if k == 'none':
             return []
         if k == 'any':
             if isinstance(v, VAny):
                 return [v.t]
-            if isinstance(v, (VRef, VList, VRec)):
+            if isinstance(v, (VRef, VList, VRec, VMap)):
                 return [v.t]
+            if isinstance(v, VStr):
+                return [self.key_term(v)]
+            if isinstance(v, (VInt, VBool)):
+                return [self.neg(z3.Function('IntKey', IntS, IntS)(self.num(v)))]
+            if isinstance(v, VNone):
+                return [z3.IntVal(-7)]
             return [fresh_int('any')]
         if k in ('pred', 'fn'):
             return [fresh_int('fnid')]
@@ -583,9 +689,13 @@ class Engine:
         if k == 'tuple':
             return VTuple([self.coerce(st, a, t, node, why) for a, t in zip(v.items, T[1])])
         if k == 'any' and not isinstance(v, VAny):
-            if isinstance(v, (VRef, VList, VRec)):
-                return VAny(v.t)
-            return VAny()
+            return VAny(self.flatten(st, ('any',), v)[0])
+        if k == 'map':
+            if isinstance(v, VAny):
+                self.note('configuration data: a value used as a mapping is assumed to be a dict')
+                return VMap(v.t)
+            if isinstance(v, VConst):
+                return self.new_map(st)
         return v
 
     def _fits(self, v, T):
@@ -619,6 +729,9 @@ class Engine:
             return TRUE
         if isinstance(v, VRec):
             return TRUE
+        if isinstance(v, VMap):
+            k = fresh_int('qk')
+            return z3.Exists([k], z3.Select(self.map_dom(st, v.t), k))
         if isinstance(v, VList):
             return self.list_len(st, v) > 0
         if isinstance(v, VTuple):
